@@ -64,7 +64,7 @@ func (t *rootTable) check(w *World) string {
 		return ""
 	}
 	r := fmt.Sprintf("%d/%x", w.Ver, w.T.GetRoot())
-	c := w.ModelKey()
+	c := contentDigest(w.ModelKey())
 	t.mu.Lock()
 	defer t.mu.Unlock()
 	if prev, ok := t.m[r]; ok {
@@ -106,6 +106,13 @@ func C02(tier rt.Tier) int {
 			}
 			return tab.check(w)
 		})
+	}
+	if !rt.SubRun {
+		lens := spans(0, 1100, 4080, 4110, 65520, 65550)
+		if tier == rt.Thorough {
+			lens = spans(0, 8300, 16370, 16400, 32750, 32790, 65500, 65600, 1<<20-8, 1<<20+8)
+		}
+		sizeSweep(rep, "canonical-root", lens, []StoreKind{Mem, LevelP}, 1, canonicalOracle, tab)
 	}
 	rep.Set("distinct_roots", len(tab.m))
 	rep.Set("rule", "BFS over all histories at a fixed version (inserts, overwrites, deletes, delete-then-reinsert, interior-path values, save+reopen); at every state GetRoot() must equal an independent canonical-trie hasher (own SHA3, own encoder, shares no code with core/util) applied to the model content, every canonical node must be stored under its hash with byte-identical encoding, and root<->content must be a bijection over all visited states")
@@ -241,6 +248,13 @@ func C14(tier rt.Tier) int {
 	}
 	for _, a := range runs {
 		runAlphabet(rep, a, time.Now().Add(per), storeOracle)
+	}
+	if !rt.SubRun {
+		lens := spans(0, 300, 1000, 1050, 4090, 4100, 65530, 65540)
+		if tier == rt.Thorough {
+			lens = spans(0, 4200, 65500, 65600, 1<<20-4, 1<<20+4, util.MPTMaxAllowableNodeSize-1, util.MPTMaxAllowableNodeSize)
+		}
+		sizeSweep(rep, "stored-under-own-hash", lens, []StoreKind{Mem, LevelP}, 3, storeOracle, nil)
 	}
 	rep.RunVariant()
 	rep.Set("rule", "BFS over all histories with separator-laden/binary values and negative/zero/huge versions on memory, layered and persistent(stand-in) stores; at every state every node of every store level must be keyed by GetHashBytes(), CreateNode(Encode(n)) must have the same hash and encoding, and a trie re-read from the store must reference every node by its recomputed hash")
